@@ -44,7 +44,10 @@ type op struct {
 	HookPanic bool
 }
 
-var methods = []string{"GET", "HEAD", "POST", "PUT", "DELETE", "OPTIONS", ""}
+var methods = []string{"GET", "HEAD", "POST", "PUT", "DELETE", "OPTIONS", "", "head", "CONNECT"}
+
+// codes a history may send on purpose (informational, empty-body and error statuses included).
+var codes = []int{200, 201, 204, 301, 304, 404, 418, 500, 100, 103, 599, 999}
 
 type hookRun struct {
 	id     int
@@ -120,7 +123,7 @@ func (Engine) Run(t *tape.Tape, o eng.Opts) *eng.Result {
 	fg := t.Stream("fault")
 	sched.ResetStamp()
 
-	method := methods[gen.Weighted(4, 3, 2, 1, 1, 1, 1)]
+	method := methods[gen.Weighted(4, 3, 2, 1, 1, 1, 1, 1, 1)]
 	flusher := gen.Intn(2) == 1
 	faultFree := fg.Chance(350)
 	withObserver := sw.Intn(3) == 1
@@ -136,7 +139,7 @@ func (Engine) Run(t *tape.Tape, o eng.Opts) *eng.Result {
 		x := op{Kind: k}
 		switch k {
 		case opWriteHeader:
-			x.Code = world.StatusCodes[gen.Intn(len(world.StatusCodes))]
+			x.Code = codes[gen.Intn(len(codes))]
 		case opWrite:
 			x.N = 1 + gen.Intn(64)
 		case opBefore:
